@@ -133,6 +133,15 @@ func c03FaultScenarios(tier string) []*h.Scenario {
 			s.Name = fmt.Sprintf("c03.faults.U%d.room%d", u, room)
 			s.Slots = 2
 			s.FaultOps = map[string]bool{sim.OpK8sGet: true, sim.OpK8sUpdate: true}
+			g0 := s.Groups[0]
+			s.MaxEventsPerSlot = 1
+			s.Events = func(hh *h.Hist, slot int) []h.Event {
+				var ev []h.Event
+				for _, n := range groupNodes(hh, g0, 6) {
+					ev = append(ev, evExtTaint(n.Name, "abc"), evExtTaint(n.Name, ""), evCordon(n.Name, !n.Spec.Unschedulable))
+				}
+				return ev
+			}
 			out = append(out, s)
 		}
 	}
